@@ -43,17 +43,18 @@ Meaning(e) ==
 
 ResizeClauses(e) ==
   LET mg == Meaning(e)
-      adm == AdmissibleND(e.mode, mg[1], mg[3], mg[4], e.offs)
+      offs == EffOffs(mg[3], mg[4], e.offs)          \* entries on unchanged axes are ignored
+      adm == AdmissibleND(e.mode, mg[1], mg[3], mg[4], offs)
       lin == e.mode # "constant" \/ e.c = CZero
   IN
-  IF ~ValidOffsets(mg[3], mg[4], e.offs) THEN {<<"bad-event-offsets", 0>>}
+  IF ~ValidOffsets(mg[3], mg[4], offs) THEN {<<"bad-event-offsets", 0>>}
   \* what a pseudo-inverse fills in where it has to extend is not fixed by the statement: values are judged only
   \* when the inverse is a pure cropping (the operator is a pure extension)
   ELSE IF e.variant = "inverse" /\ \E a \in 1..Len(e.dom) : e.dom[a] > e.ran[a] THEN {}
   ELSE IF ~adm \/ (e.variant = "adjoint" /\ ~lin) \/ (e.variant = "array" /\ e.dir = "adjoint" /\ ~lin)
     THEN (IF e.err = "" THEN {<<"not-raised", 0>>} ELSE {})
   ELSE IF e.err # "" THEN {<<"raised", 0>>}
-  ELSE LET exp == Resize(e.mode, mg[1], mg[2], mg[3], mg[4], e.offs, e.x)
+  ELSE LET exp == Resize(e.mode, mg[1], mg[2], mg[3], mg[4], offs, e.x)
        IN  IF Len(e.y) # Len(exp) THEN {<<"shape", Len(e.y)>>}
            ELSE IF \E k \in 1..Len(exp) : e.y[k] # exp[k] THEN {<<"value", 0>>} ELSE {}
 
